@@ -117,7 +117,13 @@ def classify(run, side, unit_file):
         low = msg.lower()
         if "resource limit" in low or "rlimit" in low or "timed out" in low or "timeout" in low:
             line = (prim or spans or [{}])[0].get("line_start")
-            res["resource"].append({"message": msg, "fn": fn_at(line) if line else None, "line": line})
+            fnr = fn_at(line) if line else None
+            if fnr and str(fnr).startswith("canary:"):
+                # a canary on which the solver runs out of resources did not derive `false` from the hypotheses either: it counts as rejected
+                res["canary_hits"].add(fnr[7:])
+                res.setdefault("canary_resource", []).append(fnr[7:])
+                continue
+            res["resource"].append({"message": msg, "fn": fnr, "line": line})
             continue
         kind = FAIL_KINDS.get(msg)
         if kind is None:
